@@ -263,7 +263,7 @@ def run_firstuse(ns, ctx, spec):
         return run
 
     bodies = [body(c) for c in cases]
-    res, y = yieldrun.run_concurrently(bodies, codes, sleep=0.0002, max_yields=15000, timeout=150)
+    res, y = yieldrun.run_concurrently(bodies, codes, sleep=0.0002, max_yields=15000, timeout=150, stagger=(0.0, 0.002, 0.01, 0.03)[(i // 4) % 4])
     ctx.bin("first_wraps_of_the_process_made_by_concurrent_threads")
     ctx.mon("line_yields_injected", y)
 
